@@ -226,6 +226,7 @@ fn cmd_run(args: &[String]) {
     let hashes_path = arg(args, "--hashes");
     let nsamples: usize = arg(args, "--samples").and_then(|s| s.parse().ok()).unwrap_or(2);
     let fault_enum = pname == "C07" || flag(args, "--fault-enum");
+    let mut trace_log = arg(args, "--trace-log").map(|p| std::io::BufWriter::new(std::fs::File::create(p).expect("trace log")));
     install_hook(out_dir);
     let t0 = std::time::Instant::now();
     let mut runs: u64 = 0;
@@ -289,6 +290,9 @@ fn cmd_run(args: &[String]) {
         }
         if r.ops_done >= 3 {
             prog_hashes.insert(r.stats.trace_hash);
+        }
+        if let Some(f) = trace_log.as_mut() {
+            let _ = writeln!(f, "{}\t{:016x}\t{}\t{}", i, r.stats.trace_hash, r.stats.choices.len(), r.ops_done);
         }
         if samples.len() < nsamples && r.ops_done >= 4 {
             samples.push(p.to_text());
